@@ -12,6 +12,9 @@ pub const H3_SKIP_FIELD: u32 = 4;
 pub const H4_COLLECT_STR: u32 = 8;
 /// H5b: a `Vec<u8>` handed over with `serialize_bytes` (what `serde_bytes` / a hand-written impl does)
 pub const H5_BYTES: u32 = 16;
+/// H1b: an *inexact* length hint (the hint is only a hint: iterators report lower bounds, hand-written
+/// impls count before filtering): off by one, or 0 for a non-empty container
+pub const H6_INEXACT_LEN: u32 = 32;
 
 #[derive(Debug)]
 pub struct WCfg {
@@ -19,7 +22,7 @@ pub struct WCfg {
     pub hseed: u64,
     ctr: Cell<u64>,
     /// per flag: how many times the unusual choice was actually taken
-    pub used: [Cell<u32>; 5],
+    pub used: [Cell<u32>; 6],
 }
 
 impl WCfg {
@@ -28,6 +31,19 @@ impl WCfg {
     }
     pub fn reset(&self) {
         self.ctr.set(0);
+    }
+    /// an inexact hint for a container of `n` elements (H1b), or the exact one
+    fn hint(&self, n: usize) -> usize {
+        if self.flag(H6_INEXACT_LEN) {
+            let c = self.ctr.get();
+            match crate::rng::mix(&[self.hseed, c, 77]) % 3 {
+                0 => n + 1,
+                1 => n.saturating_sub(1),
+                _ => 0,
+            }
+        } else {
+            n
+        }
     }
     fn flag(&self, bit: u32) -> bool {
         if self.hmask & bit == 0 {
@@ -121,11 +137,11 @@ impl Serialize for W<'_> {
                 s.serialize_bytes(&bytes)
             }
             (Ty::Seq(t), Val::Seq(xs)) => {
-                if cfg.hmask & H1_NOLEN == 0 {
+                if cfg.hmask & (H1_NOLEN | H6_INEXACT_LEN) == 0 {
                     // what `impl Serialize for Vec<T>` does
                     return s.collect_seq(xs.iter().map(|x| w(t, x)));
                 }
-                let len = if cfg.flag(H1_NOLEN) { None } else { Some(xs.len()) };
+                let len = if cfg.flag(H1_NOLEN) { None } else { Some(cfg.hint(xs.len())) };
                 let mut q = s.serialize_seq(len)?;
                 for x in xs {
                     q.serialize_element(&w(t, x))?;
@@ -147,11 +163,11 @@ impl Serialize for W<'_> {
                 q.end()
             }
             (Ty::Map(kt, vt), Val::Map(kvs)) => {
-                if cfg.hmask & (H1_NOLEN | H2_SPLIT_ENTRY) == 0 {
+                if cfg.hmask & (H1_NOLEN | H2_SPLIT_ENTRY | H6_INEXACT_LEN) == 0 {
                     // what `impl Serialize for BTreeMap<K, V>` does
                     return s.collect_map(kvs.iter().map(|(k, v)| (WKey { ty: kt, v: k, cfg }, w(vt, v))));
                 }
-                let len = if cfg.flag(H1_NOLEN) { None } else { Some(kvs.len()) };
+                let len = if cfg.flag(H1_NOLEN) { None } else { Some(cfg.hint(kvs.len())) };
                 let mut m = s.serialize_map(len)?;
                 for (k, v) in kvs {
                     let wk = WKey { ty: kt, v: k, cfg };
@@ -171,7 +187,7 @@ impl Serialize for W<'_> {
                     .zip(xs)
                     .map(|((_, t), x)| matches!((t, x), (Ty::Option(_), Val::None)) && cfg.flag(H3_SKIP_FIELD))
                     .collect();
-                let len = skip.iter().filter(|b| !**b).count();
+                let len = cfg.hint(skip.iter().filter(|b| !**b).count());
                 let mut st = s.serialize_struct(intern(name), len)?;
                 for (((f, t), x), sk) in fs.iter().zip(xs).zip(&skip) {
                     if *sk {
